@@ -110,7 +110,7 @@ func (a *archiveReconciler) objectSetsToBeArchived(
 			shouldArchive, err := a.intermediateRevisionCanBeArchived(
 				ctx,
 				previousRevision,
-				currentLatestRevision,
+				allObjectSets[j:],
 			)
 			if err != nil {
 				return []adapters.ObjectSetAccessor{}, err
@@ -151,11 +151,18 @@ func (a *archiveReconciler) archiveAllLaterRevisions(
 }
 
 func (a *archiveReconciler) intermediateRevisionCanBeArchived(
-	ctx context.Context, previousRevision, currentLatestRevision adapters.ObjectSetAccessor,
+	ctx context.Context, previousRevision adapters.ObjectSetAccessor, laterRevisions []adapters.ObjectSetAccessor,
 ) (bool, error) {
-	latestRevisionObjects, err := newObjectSetGetter(currentLatestRevision).getObjects()
-	if err != nil {
-		return false, err
+	// Objects of all later revisions are considered, not just the ones of the next revision.
+	// Otherwise objects skipped by an intermediate revision, but present again in the latest one
+	// would be deleted and recreated instead of being handed over.
+	var latestRevisionObjects []objectIdentifier
+	for _, laterRevision := range laterRevisions {
+		laterRevisionObjects, err := newObjectSetGetter(laterRevision).getObjects()
+		if err != nil {
+			return false, err
+		}
+		latestRevisionObjects = append(latestRevisionObjects, laterRevisionObjects...)
 	}
 	previousRevisionActivelyReconciledObjects := newObjectSetGetter(previousRevision).getActivelyReconciledObjects()
 	// Actively reconciled status is not yet updated
